@@ -296,6 +296,14 @@ class SynEngine:
         # --- drive the real code
         try:
             finder = cs.CircuitFinderSat(fm, N, basis=basis_arg, need_normalized=normalized)
+            if bkind == 'custom' and rng.random() < 0.3:
+                # the caller goes on using the list it passed as the basis (a sweep that builds the next basis in the
+                # same list): the finder was asked for the basis as it was when it was created
+                if rng.random() < 0.5:
+                    basis_arg.append(rng.choice([o for o in Operation]))
+                else:
+                    del basis_arg[rng.randrange(len(basis_arg)):]
+                st.bump('caller-changed-its-basis-list-after-creating-the-finder')
             if rng.random() < 0.3:
                 finder.get_cnf()
                 st.bump('get_cnf-before-constraints')
